@@ -131,7 +131,7 @@ class Out:
     def missing(self, file, name, why):
         file = gen_file(file, name)
         self.defs.setdefault(file, []).append(f"-- MISSING anchor {name}: {why}")
-        self.report["missing"].append({"name": name, "why": str(why)})
+        self.report["missing"].append({"name": name, "why": str(why), "file": file})
 
     def anchor(self, file, name, lean_type, fn, where):
         try:
